@@ -185,7 +185,11 @@ def exec_op(ctx: Ctx, op: dict, rec: dict) -> Any:
     if kind == "first_append":
         import datashard
         if ctx._table is None:
-            ctx._table = datashard.Table(w.table_path, create_if_not_exists=True)
+            # `noinit`: the handle is opened WITHOUT initialising an absent table (create_if_not_exists=False); the
+            # append then meets whatever a racing creator made of the location
+            ctx._table = datashard.Table(w.table_path, create_if_not_exists=not op.get("noinit"))
+            ctx._noinit = bool(op.get("noinit"))
+        res["noinit"] = bool(getattr(ctx, "_noinit", False))
         rows = mkrows(op["tag"], op.get("n", 1))
         res["appends"] = [rows]
         sname = op.get("schema")
